@@ -94,3 +94,182 @@ M("c02-route-version-error-dropped", ["C02"], {"C02": ["R02.4"]}, "routing.go",
   """		err = g.routeVersions(bucket, w, r)
 """, """		_ = g.routeVersions(bucket, w, r)
 """)
+
+# ---------------------------------------------------------------- C07
+M("c07-L1-drop-defer-runlock-listbuckets", ["C07"], {"C07": ["L1"]}, "backend/s3mem/backend.go",
+  """func (db *Backend) ListBuckets() ([]gofakes3.BucketInfo, error) {
+	db.lock.RLock()
+	defer db.lock.RUnlock()
+""", """func (db *Backend) ListBuckets() ([]gofakes3.BucketInfo, error) {
+	db.lock.RLock()
+""")
+
+M("c07-L1-early-return-holding-versiongen-mu", ["C07"], {"C07": ["L1"]}, "backend/s3mem/versionid.go",
+  """	scratchLen := len(idb) + neat + 1
+""", """	scratchLen := len(idb) + neat + 1
+	if cap(scratch) > 1<<20 {
+		return gofakes3.VersionID(idb), nil
+	}
+""")
+
+M("c07-L2-read-buckets-before-lock", ["C07"], {"C07": ["L2"]}, "backend/s3mem/backend.go",
+  """func (db *Backend) DeleteBucket(name string) error {
+	db.lock.Lock()
+	defer db.lock.Unlock()
+
+	if db.buckets[name] == nil {
+		return gofakes3.ErrNoSuchBucket
+	}
+""", """func (db *Backend) DeleteBucket(name string) error {
+	if db.buckets[name] == nil {
+		return gofakes3.ErrNoSuchBucket
+	}
+	db.lock.Lock()
+	defer db.lock.Unlock()
+""", expect="DeleteBucket")
+
+M("c07-L2-write-under-rlock", ["C07"], {"C07": ["L2"]}, "backend/s3mem/backend.go",
+  """	result, err := obj.data.toObject(rangeRequest, true)
+	if err != nil {
+		return nil, err
+	}
+""", """	result, err := obj.data.toObject(rangeRequest, true)
+	if err != nil {
+		return nil, err
+	}
+	if obj.data.etag == "" {
+		obj.data.etag = `"` + hex.EncodeToString(obj.data.hash) + `"`
+	}
+""", expect="GetObject")
+
+M("c07-L2-listparts-only-mpu-lock", ["C07"], {"C07": ["L2"]}, "uploader.go",
+  """func (u *uploader) ListParts(bucket, object string, uploadID UploadID, marker int, limit int64) (*ListMultipartUploadPartsResult, error) {
+	u.mu.Lock()
+	defer u.mu.Unlock()
+
+	mpu, err := u.getUnlocked(bucket, object, uploadID)
+	if err != nil {
+		return nil, err
+	}
+""", """func (u *uploader) ListParts(bucket, object string, uploadID UploadID, marker int, limit int64) (*ListMultipartUploadPartsResult, error) {
+	u.mu.Lock()
+	mpu, err := u.getUnlocked(bucket, object, uploadID)
+	u.mu.Unlock()
+	if err != nil {
+		return nil, err
+	}
+""", expect="ListParts")
+
+M("c07-L2-afero-stat-before-lock", ["C07"], {"C07": ["L2"]}, "backend/s3afero/single.go",
+  """	db.lock.Lock()
+	defer db.lock.Unlock()
+
+	stat, err := db.fs.Stat(filepath.FromSlash(objectName))
+	if os.IsNotExist(err) {""", """	stat, err := db.fs.Stat(filepath.FromSlash(objectName))
+
+	db.lock.Lock()
+	defer db.lock.Unlock()
+
+	if os.IsNotExist(err) {""", expect="HeadObject")
+
+M("c07-L2-helper-called-unlocked", ["C07"], {"C07": ["L2"]}, "backend/s3afero/multi.go",
+  """func (db *MultiBucketBackend) DeleteObject(bucketName, objectName string) (result gofakes3.ObjectDeleteResult, rerr error) {
+	db.lock.Lock()
+	defer db.lock.Unlock()
+
+	// Another slighly racy check:
+	exists, err := afero.Exists(db.bucketFs, bucketName)
+	if err != nil {
+		return result, err
+	} else if !exists {
+		return result, gofakes3.BucketNotFound(bucketName)
+	}
+
+	return result, db.deleteObjectLocked(bucketName, objectName)""", """func (db *MultiBucketBackend) DeleteObject(bucketName, objectName string) (result gofakes3.ObjectDeleteResult, rerr error) {
+	db.lock.Lock()
+
+	// Another slighly racy check:
+	exists, err := afero.Exists(db.bucketFs, bucketName)
+	db.lock.Unlock()
+	if err != nil {
+		return result, err
+	} else if !exists {
+		return result, gofakes3.BucketNotFound(bucketName)
+	}
+
+	return result, db.deleteObjectLocked(bucketName, objectName)""", expect="deleteObjectLocked")
+
+M("c07-L3-mergemetadata-under-lock", ["C07"], {"C07": ["L3"]}, "backend/s3mem/backend.go",
+  """	err = gofakes3.MergeMetadata(db, bucketName, objectName, meta)
+	if err != nil {
+		return result, err
+	}
+
+	db.lock.Lock()
+	defer db.lock.Unlock()
+
+	bucket := db.buckets[bucketName]
+	if bucket == nil {
+		return result, gofakes3.BucketNotFound(bucketName)
+	}
+
+	hash := md5.Sum(bts)""", """	db.lock.Lock()
+	defer db.lock.Unlock()
+
+	err = gofakes3.MergeMetadata(db, bucketName, objectName, meta)
+	if err != nil {
+		return result, err
+	}
+
+	bucket := db.buckets[bucketName]
+	if bucket == nil {
+		return result, gofakes3.BucketNotFound(bucketName)
+	}
+
+	hash := md5.Sum(bts)""")
+
+M("c07-L5-lazy-uploader-init-in-handler", ["C07"], {"C07": ["L5"]}, "gofakes3.go",
+  """	g.log.Print(LogInfo, "initiate multipart upload", bucket, object)
+""", """	g.log.Print(LogInfo, "initiate multipart upload", bucket, object)
+	if g.uploader == nil {
+		g.uploader = newUploader(g.storage, g.timeSource)
+	}
+""")
+
+M("c07-L5-requestid-plain-increment", ["C07"], {"C07": ["L5"]}, "gofakes3.go",
+  """	return atomic.AddUint64(&g.requestID, 1)""", """	g.requestID++
+	return atomic.LoadUint64(&g.requestID)""")
+
+M("c07-R016-complete-reuses-first-part-buffer", ["C07"], {"C07": ["R01.6"]}, "uploader.go",
+  """	body := make([]byte, 0, size)
+	hash := md5.New()
+	for _, inPart := range input.Parts {
+		upPart := mpu.parts[inPart.PartNumber]
+		body = append(body, upPart.Body...)""", """	var body []byte
+	hash := md5.New()
+	for i, inPart := range input.Parts {
+		upPart := mpu.parts[inPart.PartNumber]
+		if i == 0 {
+			body = upPart.Body
+			goto hashit
+		}
+		body = append(body, upPart.Body...)
+	hashit:""")
+
+M("c07-L7-bolt-bucket-escapes-tx", ["C07"], {"C07": ["L7"]}, "backend/s3bolt/backend.go",
+  """func (db *Backend) BucketExists(name string) (exists bool, err error) {
+	err = db.bolt.View(func(tx *bolt.Tx) error {
+		b := db.s3Bucket(tx, name)
+		exists = b != nil
+		return nil
+	})
+	return exists, err
+}""", """func (db *Backend) BucketExists(name string) (exists bool, err error) {
+	var b *bolt.Bucket
+	err = db.bolt.View(func(tx *bolt.Tx) error {
+		b = db.s3Bucket(tx, name)
+		return nil
+	})
+	exists = b != nil && b.Stats().KeyN >= 0
+	return exists, err
+}""")
